@@ -706,10 +706,21 @@ func (sh *SyncHandler) addBlobToCopy(sb blob.SizedRef) bool {
 }
 
 func (sh *SyncHandler) enqueue(sb blob.SizedRef) error {
-	if !sh.addBlobToCopy(sb) {
-		// Dup
+	sh.mu.Lock()
+	_, dup := sh.needCopy[sb.Ref]
+	sh.mu.Unlock()
+	if dup {
+		// Already pending, and its queue row is already written:
+		// a blob only gets into needCopy after (or from) its row.
 		return nil
 	}
+	// Write the persistent row before the blob is added to the
+	// in-memory pending list. If the row were written afterwards, a
+	// failed write would leave the blob pending in memory only: a
+	// retry of the upload would then be reported as a success (dup)
+	// without any durable record, and the copier could delete the
+	// row before it is written, leaving a stale row behind.
+	//
 	// TODO: include current time in encoded value, to attempt to
 	// do in-order delivery to remote side later? Possible
 	// friendly optimization later. Might help peer's indexer have
@@ -717,6 +728,7 @@ func (sh *SyncHandler) enqueue(sb blob.SizedRef) error {
 	if err := sh.queue.Set(sb.Ref.String(), fmt.Sprint(sb.Size)); err != nil {
 		return err
 	}
+	sh.addBlobToCopy(sb)
 	return nil
 }
 
